@@ -317,3 +317,36 @@ theorem tensordot4 (M : Mat K) (t R : Tensor K) {A B C D : ℕ} (hs : t.shape = 
 
 end Interp
 end Splipy
+
+namespace Splipy
+namespace Interp
+open Tensor
+variable {K : Type} [Field K]
+
+theorem tensordot3_size (M : Mat K) (t R : Tensor K) {A B C : ℕ} (hs : t.shape = [A, B, C])
+    (h : tensordot M t 1 = .ok R) : R.data.size = M.size * A * C := by
+  unfold tensordot at h
+  split at h
+  · exact absurd h (by simp)
+  · have hR : R = moveFront (applyAxis M t 1) 1 := by cases h; rfl
+    rw [hR]
+    unfold moveFront
+    simp only [Array.size_ofFn]
+    rw [shape_applyAxis_c14, hs]
+    simp [Tensor.split3, Tensor.prod]
+
+theorem tensordot4_size (M : Mat K) (t R : Tensor K) {A B C D : ℕ} (hs : t.shape = [A, B, C, D])
+    (h : tensordot M t 2 = .ok R) : R.data.size = M.size * A * B * D := by
+  unfold tensordot at h
+  split at h
+  · exact absurd h (by simp)
+  · have hR : R = moveFront (applyAxis M t 2) 2 := by cases h; rfl
+    rw [hR]
+    unfold moveFront
+    simp only [Array.size_ofFn]
+    rw [shape_applyAxis_c14, hs]
+    simp only [Tensor.split3, Tensor.prod, List.take, List.drop, List.foldl, List.set, List.getD_cons_succ, List.getD_cons_zero]
+    ring
+
+end Interp
+end Splipy
